@@ -692,6 +692,19 @@ func units(sys []*system) []unit {
 					us = append(us, unit{s: s, kind: "completeness", pt: pt, seed: sd})
 				}
 			}
+			// witnesses that may be any plaintext: mid- and top-of-range magnitudes, several challenges each
+			for _, c := range s.coords {
+				if c.kind != cPlain {
+					continue
+				}
+				for _, l := range midPlainLabels {
+					pt := merge(witDiag(s, "rand"), confDefault(s))
+					pt[c.name] = l
+					for sd := 0; sd < midPlainSeeds; sd++ {
+						us = append(us, unit{s: s, kind: "completeness", pt: pt, seed: 100 + sd})
+					}
+				}
+			}
 		}
 		if vkit.Want(s.name + "|false-statement") {
 			for _, pt := range falsePoints(s) {
